@@ -25,6 +25,7 @@ type SpecEnv struct {
 	bindHeap map[string]map[string]*Term // argument binders of call events: the heap when that call started
 	heapOverride map[string]*Term // evaluate against this heap instead of the current one
 	depth    int
+	assuming bool // the expression is being assumed (callee contract at a call site), not checked
 }
 
 func (ex *Executor) envFor(st *State, fr *Frame) *SpecEnv {
@@ -181,6 +182,14 @@ func (ex *Executor) evalIdent(name string, env *SpecEnv) (Val, error) {
 		if l, ok := env.fr.locals[name]; ok && !l.isAddr {
 			// a variable that lives in a memory cell (named result, address-taken or captured local) always denotes
 			// the current content of its cell, whatever the last debug reference was
+			if a := allocNamed(env.fr.fn, name); a != nil {
+				if pv, ok := env.fr.vals[a]; ok {
+					env.fr.locals[name] = localRef{v: pv, isAddr: true}
+				}
+			}
+		}
+		if _, ok := env.fr.locals[name]; !ok {
+			// cell-backed variable without a debug reference on this path yet (named result of a function with defers)
 			if a := allocNamed(env.fr.fn, name); a != nil {
 				if pv, ok := env.fr.vals[a]; ok {
 					env.fr.locals[name] = localRef{v: pv, isAddr: true}
@@ -664,6 +673,9 @@ func (ex *Executor) evalCallSpec(e *SExpr, env *SpecEnv) (Val, error) {
 		if a.Ty != nil && isString(a.Ty) {
 			return specInt(strLen(a.T)), nil
 		}
+		if a.T == nil {
+			return Val{}, fmt.Errorf("%s of %s: no value", e.Name, e.Args[0])
+		}
 		if e.Name == "len" {
 			return specInt(ex.slen(a.T)), nil
 		}
@@ -850,6 +862,9 @@ func (ex *Executor) evalCallSpec(e *SExpr, env *SpecEnv) (Val, error) {
 		if a.Fn == nil || a.Fn.Fn == nil {
 			if debugRows {
 				fmt.Printf("DEBUG closureof: %s evaluates to %v (not a known closure)\n", e.Args[0], a.T)
+			}
+			if env.assuming {
+				return Val{}, fmt.Errorf("closureof: %s is not a known closure", e.Args[0])
 			}
 			return specBool(tFalse), nil
 		}
